@@ -359,6 +359,11 @@ def r04_6(ctx, run, rule='R04.6'):
 
 # ------------------------------------------------------------------ R04.8 each side's cursor is moved by that side's own entries
 
+def report_is_baseline(path):
+    import report as _report
+    return _report.is_baseline_fn(path)
+
+
 def r04_8(ctx, run, rule='R04.8'):
     """In the symmetric walkers compare_array / compare_object (parameters = left half, right half) a value that belongs to one operand —
     an offset variable, a cursor struct — is updated only with quantities of the same operand: `right_offset += left_entry.length`, or
@@ -366,8 +371,19 @@ def r04_8(ctx, run, rule='R04.8'):
     computed *without* the update under test (a flow-insensitive provenance would let the update itself mix the sides)."""
     f = ctx.facts
     n = 0
-    for fn in ('functions::compare_array', 'functions::compare_object'):
-        b = f.one(fn)
+    # the two walkers, and every private helper of the comparison cone whose parameter list is mirrored (first half / second half have the
+    # same types): an extracted `compare_entry(left, left_off, &mut left_val, right, right_off, &mut right_val)`
+    fns = ['functions::compare_array', 'functions::compare_object']
+    for x_ in sorted(ctx.cg.reachable(['functions::compare'])):
+        bx = f.bodies.get(x_)
+        if bx is None or bx.kind == 'Promoted' or '::{closure' in x_ or not x_.startswith('functions::') or x_ in fns or x_ == 'functions::compare' or report_is_baseline(x_):
+            continue
+        if bx.argc >= 4 and bx.argc % 2 == 0:
+            h_ = bx.argc // 2
+            if [str(bx.local_ty(k).get('s')) for k in range(1, h_ + 1)] == [str(bx.local_ty(k).get('s')) for k in range(h_ + 1, bx.argc + 1)]:
+                fns.append(x_)
+    for fn in fns:
+        b = f.one(fn) if fn in ('functions::compare_array', 'functions::compare_object') else f.bodies.get(fn)
         if b is None:
             run.undecided(rule, fn, 'side-hygiene', 'function not found (anchor lost)')
             continue
@@ -390,7 +406,25 @@ def r04_8(ctx, run, rule='R04.8'):
                 # a call that receives `&mut X` (or a method on it) together with other arguments: X may be updated from them
                 x, others = e[1], e[2]
             elif e[0] == '*':
-                continue
+                # a store through a reference (`*right_val_offset += ..`): the value behind a parameter of one side
+                dst, src = e[1], e[2]
+                if not (1 <= dst <= b.argc):
+                    continue
+                full = set(src)
+                for _ in range(4):
+                    more = set()
+                    for t_ in list(full):
+                        if b.name_of(t_) is None and t_ > b.argc:
+                            for e2 in edges:
+                                if e2[0] not in ('mut', '*') and e2[0] == t_:
+                                    more |= e2[1]
+                    if more <= full:
+                        break
+                    full |= more
+                others = {t_ for t_ in full if t_ != dst and (b.name_of(t_) is not None or t_ <= b.argc)}
+                if not others:
+                    continue
+                x = dst
             else:
                 dst, src = e
                 if b.name_of(dst) is None:
